@@ -20,6 +20,7 @@ func init() {
 var wPosition = map[string]string{"insert": "node", "delete": "node", "getBlockProof": "node", "markToCollect": "node"}
 
 func runC09(r *engine.Run) {
+	r.Rule("AGREE-purge", "see C11: a hash that a commit writes again is taken off every list DeleteNodes feeds storage deletes from (a node deleted and re-created identically between two collection passes is one live record: collecting it makes the ownership query of its key fail after a reload)")
 	r.Rule("PRESENCE-byweight", "no comparison in core/util/wmpt takes a weight of 0 for absence (a weight compared with the constant 0): entries of weight 0 are entries whose hashes their ancestors commit to - a checkpoint copy that skips them, or a rollback that takes a zero-weight root for the empty trie, no longer stands for the checkpoint state")
 	r.Rule("ORDER-hashfresh", "see C10: a node's serialised form never embeds a cached hash that may be stale (Save hashes before it encodes): a reloaded value node hands its parent the recorded hash, so a stale one makes the root differ from the independent computation")
 	r.Rule("DOM-save", "see C11: every arm of commit puts its node into the batch before each success return (a short node that is not saved because 'the branch above carries it' is missing when it is the root: the committed trie cannot be reopened from its root hash)")
@@ -94,6 +95,7 @@ func runC09(r *engine.Run) {
 	domSave(r)
 	orderHashFresh(r, "ORDER-hashfresh")
 	presenceByWeight(r, "PRESENCE-byweight")
+	agreePurge(r)
 }
 
 func wfn(r *engine.Run, rule, name string) *ssa.Function {
